@@ -20,12 +20,13 @@ import numpy as np
 from .core import seams
 from .core.world import Violation, HarnessError
 from .refcodec import camx
+from .refcodec import bpch as bpchcodec
 
 NAME = 'crash'
 PROPERTIES = ['C14']
 
 FORMATS = ['uamiv', 'lateral_boundary', 'temperature', 'wind', 'one3d',
-           'humidity', 'vertical_diffusivity', 'height_pressure']
+           'humidity', 'vertical_diffusivity', 'height_pressure', 'bpch']
 CPU_CAP_S = 6           # per cut, alone; normal cost is 1-3 ms
 BATCH = 150
 
@@ -35,6 +36,8 @@ def gen_config(rng, tier):
             'exhaustive': tier == 'thorough' and rng.random() < 0.5,
             'sample': rng.choice([40, 80, 160]) if tier == 'quick' else 600,
             'via': rng.choice(['class', 'pncopen']),
+            # the documented writable mode of the header-bearing memmap readers
+            'mode': rng.choice(['r', 'r', 'r+']),
             'clock': 'steady', 'max_steps': 100000}
 
 
@@ -69,6 +72,12 @@ def _mkspec(rng, fmt):
         base['species'] = ['O3', 'NO2', 'CO'][:rng.randrange(1, 4)]
         base['nx'] = max(base['nx'], 2)
         base['ny'] = max(base['ny'], 2)
+    elif fmt == 'bpch':
+        base['nt'] = rng.randrange(1, 4)
+        nb = rng.randrange(1, 4)
+        base['blocks'] = [{'cat': 'IJ-AVG-$', 'tid': i + 1, 'nl': rng.randrange(1, 4),
+                           'name': ['O3', 'NOx', 'CO'][i], 'scale': [1e9, 1.0, 1e6][i]}
+                          for i in range(nb)]
     else:
         base['kind'] = fmt
         if base['nt'] == 1 and rng.random() < 0.8:
@@ -90,6 +99,27 @@ def build(fmt, spec):
         for e in camx.EDGES:
             for i, s in enumerate(g['species']):
                 truth['%s_%s' % (e, s)] = np.asarray(g['edges'][e][:, i], dtype='f4')
+    elif fmt == 'bpch':
+        times = []
+        base = 1.0
+        truth = {}
+        for t in range(spec['nt']):
+            blocks = []
+            for bl in spec['blocks']:
+                n = bl['nl'] * spec['ny'] * spec['nx']
+                a = ((base + 0.25 * np.arange(n, dtype='f8')) * 1e-3).astype('f4').reshape(
+                    bl['nl'], spec['ny'], spec['nx'])
+                base += 0.25 * n + 10.
+                blocks.append({'category': bl['cat'], 'tracer': bl['tid'], 'unit': 'v/v',
+                               'tau0': 1000.0 + t, 'tau1': 1001.0 + t, 'start': (3, 4, 1),
+                               'data': a, 'reserved': ''})
+                truth.setdefault('%s_%s' % (bl['cat'], bl['name']), []).append(
+                    (a.astype('f4') * np.float32(bl['scale'])).astype('f4'))
+            times.append(blocks)
+        truth = {k: np.stack(v) for k, v in truth.items()}
+        doc = {'modelname': 'GEOS5_47L', 'modelres': (5.0, 4.0), 'halfpolar': 1,
+               'center180': 1, 'times': times}
+        b, meta = bpchcodec.encode(doc)
     else:
         m = camx.met_from_spec(spec)
         b, meta = camx.encode_met(m)
@@ -112,13 +142,16 @@ def build(fmt, spec):
     return b, meta, truth
 
 
-def open_reader(fmt, path, spec, via):
+def open_reader(fmt, path, spec, via, mode='r'):
     import PseudoNetCDF as pnc
+    if fmt == 'bpch':
+        return pnc.pncopen(path, format='bpch1')
     if fmt in ('uamiv', 'lateral_boundary'):
+        kw = {} if mode == 'r' else {'mode': mode}
         if via == 'pncopen':
-            return pnc.pncopen(path, format=fmt)
+            return pnc.pncopen(path, format=fmt, **kw)
         from PseudoNetCDF.camxfiles import Memmaps
-        return getattr(Memmaps, fmt)(path)
+        return getattr(Memmaps, fmt)(path, **kw)
     rows, cols = spec['ny'], spec['nx']
     if via == 'pncopen':
         return pnc.pncopen(path, format=fmt, rows=rows, cols=cols)
@@ -126,11 +159,19 @@ def open_reader(fmt, path, spec, via):
     return getattr(Memmaps, fmt)(path, rows, cols)
 
 
-def present(fmt, path, spec, via):
+def present(fmt, path, spec, via, mode='r'):
     """What the reader presents: {'vars': {name: array}, 'tflag': array|None}
     Every variable and the time flags are fully read."""
-    f = open_reader(fmt, path, spec, via)
+    f = open_reader(fmt, path, spec, via, mode)
     out = {}
+    if fmt == 'bpch':
+        for k in list(f.variables.keys()):
+            v = f.variables[k]
+            if hasattr(v, 'tracerid'):
+                out[k] = np.array(v[...], dtype='f4')
+        t0 = np.array(f.variables['tau0'][...], 'f8')
+        t1 = np.array(f.variables['tau1'][...], 'f8')
+        return {'vars': out, 'tflag': np.stack([t0, t1], axis=1)[:, None, :]}
     keys = list(f.variables.keys())
     tflag = None
     for k in keys:
@@ -144,9 +185,21 @@ def present(fmt, path, spec, via):
     return {'vars': out, 'tflag': tflag}
 
 
-def judge(fmt, pres, truth, full, N, step_ends):
+def judge(fmt, pres, truth, full, N, step_ends, boundaries=None):
     """None if the prefix presentation is allowed, else (what, detail)."""
     nt_true = len(step_ends)
+    on_boundary = boundaries is None or N in boundaries
+    if fmt == 'bpch' and pres['vars'] and N < step_ends[0] and on_boundary and \
+            set(pres['vars']) < set(truth) and \
+            all(a.shape[0] == 1 and a.shape[1:] == truth[k].shape[1:] and
+                a[0].astype('f4').tobytes() == truth[k][0].astype('f4').tobytes()
+                for k, a in pres['vars'].items()):
+        # a bpch file cut on a data-block boundary inside its FIRST time block is
+        # itself a valid file with fewer tracers (see known_findings.json)
+        return ('first-step-fewer-tracers',
+                'one time block with tracers %s of %s (values genuine); the prefix ends on '
+                'a data-block boundary inside the first time block' % (
+                    sorted(pres['vars']), sorted(truth)))
     for k, a in pres['vars'].items():
         if k not in truth:
             return ('unknown-variable', 'variable %s is not in the file' % k)
@@ -155,7 +208,7 @@ def judge(fmt, pres, truth, full, N, step_ends):
             # a headerless meteorological file cut on a record boundary inside
             # its FIRST step is itself a well-formed file with fewer layers:
             # classified apart (see known_findings.json)
-            if (a.ndim == t.ndim == 4 and a.shape[0] == 1 and
+            if (on_boundary and a.ndim == t.ndim == 4 and a.shape[0] == 1 and
                     tuple(a.shape[2:]) == tuple(t.shape[2:]) and
                     0 <= a.shape[1] < t.shape[1] and N < step_ends[0] and
                     a[0].astype('f4').tobytes() ==
@@ -233,9 +286,13 @@ def _eval_cuts_child(st, Ns, wfd, cap):
             fh.write(f['bytes'][:N])
         res = {'N': N}
         try:
-            pres = present(f['fmt'], path, f['spec'], st.c['via'])
+            pres = present(f['fmt'], path, f['spec'], st.c['via'], st.c.get('mode', 'r'))
             bad = judge(f['fmt'], pres, f['truth'], f['full'], N,
-                        f['meta'].get('data_ends', f['meta']['step_ends']))
+                        f['meta'].get('data_ends', f['meta']['step_ends']),
+                        set(f['meta'].get('block_ends', f['rec_bounds'])))
+            if bad is None and os.path.getsize(path) != N:
+                bad = ('file-grown-by-reader', 'opening the %d-byte prefix left a %d-byte '
+                       'file on disk' % (N, os.path.getsize(path)))
             nst = max([a.shape[0] for a in pres['vars'].values()] + [0])
             res['out'] = 'exposed'
             res['steps'] = int(nst)
@@ -347,6 +404,14 @@ def apply(st, op):
     if o == 'mkfile':
         fmt = op['fmt']
         b, meta, truth = build(fmt, op['spec'])
+        if fmt == 'bpch':
+            with open(w.path('tracerinfo.dat'), 'w') as fh:
+                fh.write(bpchcodec.tracerinfo_text(
+                    [{'name': x['name'], 'id': x['tid'], 'scale': x['scale'], 'unit': 'ppbv'}
+                     for x in op['spec']['blocks']]))
+            with open(w.path('diaginfo.dat'), 'w') as fh:
+                fh.write(bpchcodec.diaginfo_text([{'offset': 0, 'category': 'IJ-AVG-$',
+                                                   'comment': 'stub'}]))
         recs = camx.walk(b)
         rec_bounds = sorted(set([off for off, p in recs] + [off + 8 + len(p) for off, p in recs]))
         st.file = {'fmt': fmt, 'spec': op['spec'], 'bytes': b, 'meta': meta,
@@ -450,7 +515,7 @@ def eval_full(st):
             path = st.w.path('full.' + f['fmt'])
             with open(path, 'wb') as fh:
                 fh.write(f['bytes'])
-            pres = present(f['fmt'], path, f['spec'], st.c['via'])
+            pres = present(f['fmt'], path, f['spec'], st.c['via'], st.c.get('mode', 'r'))
             size = len(f['bytes'])
             bad = judge(f['fmt'], pres, f['truth'], None, size, f['meta']['step_ends'])
             nst = [a.shape[0] for a in pres['vars'].values()]
